@@ -231,21 +231,25 @@ impl<C: ContentAddrStore> UnsealedState<C> {
     }
 
     fn move_action_fee_multiplier(&mut self, after_tip_901: bool, action: ProposerAction) {
-        let max_movement = if after_tip_901 {
-            ((self.fee_multiplier >> 7) as i64).max(2)
+        // All arithmetic is done in u128: `fee_multiplier >> 7` is below 2^121, so multiplying by
+        // |delta| <= 128 cannot overflow, and the final move saturates instead of wrapping.
+        let max_movement: u128 = if after_tip_901 {
+            (self.fee_multiplier >> 7).max(2)
         } else {
-            (self.fee_multiplier >> 7) as i64
+            self.fee_multiplier >> 7
         };
-        let scaled_movement = max_movement * action.fee_multiplier_delta as i64 / 128;
+        let delta = action.fee_multiplier_delta;
+        let scaled_movement: u128 = max_movement * (delta.unsigned_abs() as u128) / 128;
         log::debug!(
-            "changing fee multiplier {} by {}",
+            "changing fee multiplier {} by {}{}",
             self.fee_multiplier,
+            if delta >= 0 { "+" } else { "-" },
             scaled_movement
         );
-        if scaled_movement >= 0 {
-            self.fee_multiplier += scaled_movement as u128;
+        if delta >= 0 {
+            self.fee_multiplier = self.fee_multiplier.saturating_add(scaled_movement);
         } else {
-            self.fee_multiplier -= scaled_movement.unsigned_abs() as u128;
+            self.fee_multiplier = self.fee_multiplier.saturating_sub(scaled_movement);
         }
     }
 
